@@ -542,6 +542,82 @@ def make_verb(shape, path, bitmap, n):
     return q
 
 
+# extension methods: any RFC 7230 token is a method name (M-SEARCH, VERSION-CONTROL and BASELINE-CONTROL are registered with
+# IANA); since seed C02-k
+EXT = ("M-SEARCH", "VERSION-CONTROL", "PATCH", "X_Y", "PROP.FIND", "BASELINE-CONTROL", "R2D2", "A+B")
+
+
+def _ext_requests():
+    out = []
+    for name in EXT:
+        parts = []
+        cur = ""
+        for c in name:
+            if 65 <= ord(c) <= 90:
+                cur += c
+            else:
+                if cur:
+                    parts.append(cur)
+                cur = ""
+        if cur:
+            parts.append(cur)
+        for v in [name, name.lower(), name.capitalize(), "".join(parts)] + parts:
+            if v not in out:
+                out.append(v)
+    return out + ["GET", "HEAD", "POST", "ANY"]
+
+
+EXT_REQUESTS = _ext_requests()
+EXT_STYLES = ("string", "lower-string", "decorator", "list", "list-with-post", "add_route-string")
+
+
+def make_ext(style):
+    """one route holding an extension method (name by solver index) registered in the given style, optionally GET / ANY
+    next to it; request verb by solver index from the names, their other spellings, their letter runs and the usual verbs"""
+    def q(i: int, j: int, with_get: bool, with_any: bool):
+        assume(0 <= i < len(EXT))
+        assume(0 <= j < len(EXT_REQUESTS))
+        name, verb = EXT[i], EXT_REQUESTS[j]
+        calls = []
+        app = ombott.Ombott()
+        h = make_handler("ext", calls)
+        table = {name: "ext"}
+        if style == "string":
+            app.route("/e", method=name, callback=h)
+        elif style == "lower-string":
+            app.route("/e", name.lower(), h)
+        elif style == "decorator":
+            app.route("/e", method=name.capitalize())(h)
+        elif style == "list":
+            app.add_route("/e", [name], h)
+        elif style == "list-with-post":
+            app.add_route("/e", [name.lower(), "POST"], h)
+            table["POST"] = "ext"
+        else:
+            app.add_route("/e", name, h)
+        if with_get:
+            app.route("/e", method="GET", callback=make_handler("get", calls))
+            table["GET"] = "get"
+        if with_any:
+            app.route("/e", method="ANY", callback=make_handler("any", calls))
+            table["ANY"] = "any"
+        if fold(verb) == name:
+            cover("ext-hit")
+        return judge_wsgi(request(app, verb, "/e"), calls, expected([table], 0, fold(verb)))
+    return q
+
+
+def ext_queries(tier):
+    out = []
+    for style in (EXT_STYLES[:4] if tier == "quick" else EXT_STYLES):
+        out.append(Q("ext/%s" % style, make_ext(style),
+                     "route /e with one extension method of %r registered as %s, with / without GET and ANY next to it (solver "
+                     "choices); REQUEST_METHOD one of %d spellings (the names, lower case, capitalised, their letter runs, "
+                     "GET/HEAD/POST/ANY; solver index)" % (list(EXT), style, len(EXT_REQUESTS)),
+                     timeout=200, expect_cover=["200", "405", "ext-hit"], family="ext", config={"style": style}))
+    return out
+
+
 # ---------------------------------------------------------------- query list
 def table_queries(tier):
     T = tier == "thorough"
@@ -675,7 +751,7 @@ def override_queries(tier):
 def queries(tier):
     """Families interleaved, so that a run cut by the wall budget still holds queries of each family."""
     families = [table_queries(tier), edit_queries(tier), split_queries(tier), verb_queries(tier), override_queries(tier),
-                config_queries(tier)]
+                config_queries(tier), ext_queries(tier)]
     out = []
     while any(families):
         for fam in families:
